@@ -20,6 +20,10 @@ from . import common
 from . import c16_terms as T
 from .common import glist
 
+
+def gbool(b) -> str:
+    return "true" if b else "false"
+
 PID = "C16"
 
 # ---------------------------------------------------------------------------------------------
@@ -477,6 +481,34 @@ def gen_modules(run, rnd):
         mods.append("async def f():\n" + bf.format(h="f") + "f()\n")
         mods.append("'doc'\ndef f():\n    'doc'\n    'more'\n" + bf.format(h="f") + "'s'\nf()\n")
     mods += class_family(run)
+    # the repaired guards: names bound by something else than one def (parameter, import, loop / with / except target,
+    # a second definition), decorated definitions, classes with bases / keywords / decorators, try bodies, `_` that is
+    # read, iteration over unknown objects
+    mods += [src for _, _, src, _, _ in hunt_family()]
+    for i, bf in enumerate(FUNC_TEXTS[:8]):
+        body = bf.format(h="f")
+        for binder in ("def g(f):\n    return f()\n", "def g(*f):\n    pass\n", "def g(**f):\n    pass\n", "g = lambda f: 1\n",
+                       "import f\n", "import f.sub\n", "import m as f\n", "from m import f\n", "from m import n as f\n",
+                       "for f in x:\n    pass\n", "with x as f:\n    pass\n", "try:\n    pass\nexcept E as f:\n    pass\n",
+                       "[f for f in x]\n", "(f := 1)\n", "class f:\n    pass\n", "class K:\n    def f(self):\n        return 1\n",
+                       "global f\n", "del f\n", "x.f = 1\n"):
+            mods.append("def f():\n" + body + binder + "f()\n")
+        for deco in ("@d\n", "@d(1)\n", "@staticmethod\n"):
+            mods.append(deco + "def f():\n" + body + "f()\nh()\n")
+            mods.append("def h():\n    return f()\n" + deco + "def f():\n" + body + "f()\nh()\n")
+        for head in ("class A(Base):\n", "class A(metaclass=M):\n", "@d\nclass A:\n", "class A(object):\n", "class A():\n"):
+            mods.append("def f():\n" + body + head + "    def __init__(self):\n        f()\nA()\nf()\n")
+    for st in STMT_TAILS + ["'s'\n1\n", "pass\n", "_ = 1\n", "x[0]\n", "len(x)\n", "[*x]\n", "[a for a in x]\n",
+                            "[a for a in [1]]\n", "for _ in x:\n    pass\n", "for _ in range(3):\n    pass\n",
+                            "def _():\n    pass\n", "class _:\n    pass\n", "class _(B):\n    pass\n"]:
+        ind = "    " + st.rstrip("\n").replace("\n", "\n    ") + "\n"
+        for pre in ("def f():\n    return 1\n", "def f():\n    print(1)\n"):
+            mods.append(pre + "try:\n" + ind + "except E:\n    pass\n")
+            mods.append(pre + "try:\n    'doc'\n" + ind + "    y\nexcept E:\n" + ind + "else:\n" + ind + "finally:\n" + ind)
+            mods.append(pre + "try:\n" + ind + "finally:\n    pass\n")
+            mods.append(pre + st + "print(_)\n")
+            mods.append(pre + st + "def k():\n    global _\n")
+            mods.append(pre + st + "_ = 2\n")
     for _ in range(150 if run.tier == "quick" else 3000):
         fs = rnd.sample(["f", "h", "k", "f"], rnd.randint(1, 3))
         src = ""
@@ -500,10 +532,25 @@ def gen_modules(run, rnd):
 
 def module_model_input(mods, root):
     """What EffectModel.safe_callable_names takes: the definitions in the order of core.walk, for each the
-    statements handed to has_side_effect (split by core.is_blocking) and the return values."""
+    statements handed to has_side_effect (split by core.is_blocking), the return values and whether it is decorated;
+    the names bound by anything but a def / class statement; the names that several definitions share; the classes
+    without bases / keywords / decorators with the indices of their constructors."""
     core = mods["core"]
     fdefs = list(core.walk(root, (ast.FunctionDef, ast.AsyncFunctionDef)))
-    shadowed = sorted({n.id for n in ast.walk(root) if isinstance(n, ast.Name) and isinstance(n.ctx, ast.Store)})
+    shadowed = set()
+    counts = {}
+    for n in ast.walk(root):
+        if isinstance(n, ast.Name) and isinstance(n.ctx, ast.Store):
+            shadowed.add(n.id)
+        elif isinstance(n, ast.arg):
+            shadowed.add(n.arg)
+        elif isinstance(n, (ast.Import, ast.ImportFrom)):
+            shadowed.update((a.asname or a.name).split(".")[0] for a in n.names)
+        elif isinstance(n, ast.ExceptHandler) and n.name:
+            shadowed.add(n.name)
+        elif isinstance(n, (ast.FunctionDef, ast.AsyncFunctionDef, ast.ClassDef)):
+            counts[n.name] = counts.get(n.name, 0) + 1
+    dups = sorted(x for x, c in counts.items() if c > 1)
     defs = []
     for node in fdefs:
         checked = []
@@ -514,15 +561,39 @@ def module_model_input(mods, root):
                 break
             checked.append(child)
         rets = [n.value for n in ast.walk(node) if isinstance(n, ast.Return)]
-        defs.append((node.name, [T.s_of(c) for c in checked],
+        defs.append((node.name, bool(node.decorator_list), [T.s_of(c) for c in checked],
                      [T.CONST0 if v is None else T.e_of(v) for v in rets]))
     classes = []
     for node in ast.walk(root):
-        if isinstance(node, ast.ClassDef):
+        if isinstance(node, ast.ClassDef) and not (node.bases or node.keywords or node.decorator_list):
             ctors = [fdefs.index(c) for c in node.body
                      if isinstance(c, ast.FunctionDef) and c.name in ("__init__", "__post_init__", "__new__")]
             classes.append((node.name, ctors))
-    return defs, shadowed, classes
+    return defs, sorted(shadowed), dups, classes
+
+
+def underscore_is_read(root) -> bool:
+    """`_` is loaded, or declared global / nonlocal, somewhere in the module"""
+    for n in ast.walk(root):
+        if isinstance(n, ast.Name) and n.id == "_" and isinstance(n.ctx, ast.Load):
+            return True
+        if isinstance(n, (ast.Global, ast.Nonlocal)) and "_" in n.names:
+            return True
+    return False
+
+
+def def_body_hidden_from_model(stmts) -> bool:
+    """The term of a `def` does not carry the function body (it is not executed by the statement), but the iteration
+    guard of delete_pointless_statements walks into it: a harmless `def _` whose body iterates is out of the domain."""
+    for st in stmts:
+        for n in ast.walk(st):
+            if isinstance(n, (ast.FunctionDef, ast.AsyncFunctionDef)) and n.name == "_":
+                if any(isinstance(m, (ast.For, ast.AsyncFor, ast.comprehension, ast.Starred)) for m in ast.walk(n)):
+                    return True
+    return False
+
+
+CASE_T = "list name * list name * list name * list fdef * list (name * list nat) * bool * bool * stmts"
 
 
 def check_modules(run, mods, wd, rnd, cov):
@@ -531,30 +602,42 @@ def check_modules(run, mods, wd, rnd, cov):
     sources = gen_modules(run, rnd)
     disagreements = []
     cases, keep = [], []
+    n_try = 0
     for src in sources:
         core.parse.cache_clear()
         root = core.parse(src)
         try:
-            defs, shadowed, classes = module_model_input(mods, root)
-            body_terms = [T.s_of(c) for c in root.body]
+            defs, shadowed, dups, classes = module_model_input(mods, root)
+            # the bodies whose decision is compared: the module body, and the body of every top-level try statement
+            # with handlers (there the statement must also be unable to raise)
+            bodies = [(False, root.body)]
+            bodies += [(True, st.body) for st in root.body if isinstance(st, ast.Try) and st.handlers]
+            if def_body_hidden_from_model(root.body):
+                continue
+            body_terms = [[T.s_of(c) for c in b] for _, b in bodies]
         except T.Unsupported:
             continue
         with common.quiet(), watchdog(20, f"parsing.safe_callable_names / delete_pointless_statements on {src!r}"):
             real = set(parsing.safe_callable_names(root)) - SAFE
             deleted = {id(n) for n, _ in fixes.delete_pointless_statements._fix_func(src)}
-        real_flags = [id(c) in deleted for c in core.parse(src).body]
+        assert core.parse(src) is root
+        us_used = underscore_is_read(root)
         names = set()
-        for t in body_terms:
-            names |= T.names_in(t)
-        for _, ch, rets in defs:
+        for bt in body_terms:
+            names |= T.names_in(bt)
+        for _, _, ch, rets in defs:
             names |= T.names_in(ch) | T.names_in(rets)
         names |= {d[0] for d in defs} | {c[0] for c in classes}
         base = sorted(names & SAFE)
-        dtxt = glist(defs, lambda d: f"(mkF {T.q(d[0])} {T.slist(d[1])} {T.elist(d[2], T.e_coq)})")
+        dtxt = glist(defs, lambda d: f"(mkF {T.q(d[0])} {gbool(d[1])} {T.slist(d[2])} {T.elist(d[3], T.e_coq)})")
         ctxt = glist(classes, lambda c: f"({T.q(c[0])}, {glist(c[1], str)})")
-        cases.append(f"({glist(base, T.q)}, {glist(shadowed, T.q)}, {dtxt}, {ctxt}, {T.slist(body_terms)})")
-        keep.append((src, sorted(real), real_flags, sorted(names - SAFE)))
-    # model: for each case, the safe names among the candidate names and the top-level deletion flags
+        for (in_try, b), bt in zip(bodies, body_terms):
+            real_flags = [id(c) in deleted for c in b]
+            cases.append(f"({glist(base, T.q)}, {glist(shadowed, T.q)}, {glist(dups, T.q)}, {dtxt}, {ctxt}, "
+                         f"{gbool(in_try)}, {gbool(us_used)}, {T.slist(bt)})")
+            keep.append((src, sorted(real), real_flags, sorted(names - SAFE), in_try))
+            n_try += in_try
+    # model: for each case, the safe names among the candidate names and the deletion flags of the body
     files, shards = [], []
     per = 150
     for k in range(0, len(cases), per):
@@ -562,12 +645,13 @@ def check_modules(run, mods, wd, rnd, cov):
         body = ";\n ".join(cases[k:k + per])
         cand = ";\n ".join(glist(kk[3], T.q) for kk in keep[k:k + per])
         p.write_text(PRELUDE + intern_names(
-                     "Definition cases : list (list name * list name * list fdef * list (name * list nat) * stmts) := [\n "
+                     f"Definition cases : list ({CASE_T}) := [\n "
                      + body + "\n].\nDefinition cands : list (list name) := [\n " + cand + "\n].\n") +
-                     "Definition run1 (c : list name * list name * list fdef * list (name * list nat) * stmts) (cs : list name) : list nat :=\n"
-                     "  let '(base, sh, defs, cls, body) := c in\n"
-                     "  let safe := safe_callable_names base sh defs cls in\n"
-                     "  [List.length cs] ++ map (fun x => bit (mem x safe)) cs ++ map bit (pointless body safe) ++ [7].\n"
+                     f"Definition run1 (c : {CASE_T}) (cs : list name) : list nat :=\n"
+                     "  let '(base, sh, dups, defs, cls, in_try, us_used, body) := c in\n"
+                     "  let safe := safe_callable_names base sh dups defs cls in\n"
+                     "  [List.length cs] ++ map (fun x => bit (mem x safe)) cs\n"
+                     "  ++ map bit (pointless_ctx in_try us_used body safe) ++ [7].\n"
                      "Eval vm_compute in (List.concat (map (fun p => run1 (fst p) (snd p)) (combine cases cands))).\n")
         files.append(p); shards.append(keep[k:k + per])
     results = common.run_case_files(files)
@@ -578,19 +662,21 @@ def check_modules(run, mods, wd, rnd, cov):
         if nums is None:
             raise RuntimeError(f"model evaluation failed for {p.name}: {txt[-1500:]}")
         pos = 0
-        for src, real, real_flags, cand in shard:
+        for src, real, real_flags, cand, in_try in shard:
             n = nums[pos]; pos += 1
             assert n == len(cand), (n, cand)
             msafe = sorted(c for c, b in zip(cand, nums[pos:pos + n]) if b); pos += n
             mflags = [bool(b) for b in nums[pos:pos + len(real_flags)]]; pos += len(real_flags)
             assert nums[pos] == 7, "desynchronised model output"; pos += 1
-            if msafe != real:
+            if msafe != real and not in_try:
                 disagreements.append({"case": src, "fn": "safe_callable_names", "impl": real, "model": msafe})
             if mflags != real_flags:
-                disagreements.append({"case": src, "fn": "delete_pointless_statements (top-level decision)",
+                disagreements.append({"case": src, "fn": "delete_pointless_statements "
+                                      + ("(decision in a try body)" if in_try else "(top-level decision)"),
                                       "impl": real_flags, "model": mflags})
             n_del += sum(real_flags)
-    cov.update(module_cases=len(keep), module_statements_deleted=n_del, module_disagreements=len(disagreements))
+    cov.update(module_cases=len(keep), module_try_bodies=n_try, module_statements_deleted=n_del,
+               module_disagreements=len(disagreements))
     return disagreements, [keep[0][0], keep[len(keep) // 2][0]]
 
 
